@@ -226,7 +226,8 @@ def main(argv: list[str] | None = None) -> int:
 
     # ---- report -----------------------------------------------------------------
     for kf, v in known_hits:
-        print(f"KNOWN-FINDING: property={prop} {kf['key']} — {kf['what']} (hits={v['count']})")
+        at = "" if v["key"] == kf["key"] else f" [{v['key']}]"
+        print(f"KNOWN-FINDING: property={prop} {kf['key']}{at} — {kf['what']} (hits={v['count']})")
     rc = 0
     for v in new_viol:
         rdir = os.path.join(VERIF_DIR, "replay", prop)
